@@ -399,6 +399,8 @@ struct A {
 	void dumpHolder(const Po::ValueStore& s) {
 		int t = tcode(s);
 		if (t < 0) { o.add(t); o.add(0); o.add(0); o.add(-1); return; }
+		// a typed holder without an object (an adopted null pointer that outlived its op 18): report the type, never dereference
+		if (s.extract_raw() == 0) { o.add(t); o.add(0); o.add(0); o.add(-2); return; }
 		dispatch(t, [&](auto* tag) { typedef TYPE_OF(tag) T;
 			ll val = 0, id = -1;
 			Y<T>::read(s, val, id);
@@ -579,6 +581,23 @@ struct A {
 				if (okm(n)) {
 					std::string text = ok == 0 ? std::string("bad") : std::to_string(norm(staticTy(tys[(size_t)n]), v));
 					o.add(nv[(size_t)n]->parse(mname(n), text) ? 1 : 0);
+				}
+			}
+			else if (op == 18) {
+				// h[i]->assimilate((T*)0): legal (delete (T*)0 is valid).  The holder is then non-empty, of type T, and holds no object;
+				// printed: !empty(), the type code type() answers, extract_raw() == 0.  Then one of four ways out, each leaving it empty.
+				if (c.v.size() - c.p < 3) break;
+				ll i = c.next(), ty = staticTy(c.next()), how = c.next();
+				if (okh(i) && okty(ty)) {
+					dispatch(ty, [&](auto* tag) { typedef TYPE_OF(tag) T; Y<T>::adopt(*h[(size_t)i], static_cast<void*>(0)); });
+					Po::ValueStore& s = *h[(size_t)i];
+					o.add(s.empty() ? 0 : 1); o.add(tcode(s)); o.add(!s.empty() && s.extract_raw() == 0 ? 1 : 0);
+					switch (((how % 4) + 4) % 4) {
+						case 0: s.clear(); break;
+						case 1: s.surrender(); break;
+						case 2: delete h[(size_t)i]; h[(size_t)i] = new Po::ValueStore(); break;
+						default: s = Po::ValueStore(); break;
+					}
 				}
 			}
 			else break;
